@@ -1,5 +1,6 @@
 import EtVerif.Props.TieSites
 import EtVerif.Props.C15
+import EtVerif.Props.TrPg
 #print axioms EtVerif.C15.newCSR_guard_oapi_inline
 #print axioms EtVerif.C15.newCSR_guard_grpc_update
 #print axioms EtVerif.C15.newCSR_guard_readLocalTrust
@@ -40,3 +41,6 @@ import EtVerif.Props.C15
 #print axioms EtVerif.Ties.source_sites_audited
 #print axioms EtVerif.C15.pgIterBound_le
 #print axioms EtVerif.C15.pgIterBound_ge
+-- the playground's iteration bound (the repair e85c9dc), translated from the current source, is the model's pgIterBound
+#print axioms EtVerif.TrPg.iterationBound_refines
+#print axioms EtVerif.TrPg.iterationBound_range
